@@ -189,6 +189,8 @@ func (c *RepoCache) lock(events chan BuildEvent) error {
 		return err
 	}
 
+	verifYield("lock:after-create")
+
 	pid := fmt.Sprintf("%d", os.Getpid())
 	_, err = f.Write([]byte(pid))
 	if err != nil {
